@@ -249,7 +249,7 @@ def per_program(p):
 
 
 def plan(tier, seed):
-    n = 120 if tier == "quick" else 2500
+    n = 300 if tier == "quick" else 2500
     depth = 4 if tier == "quick" else 6
     shards = [{"seed": seed * 1000 + k, "n": n, "depth": depth, "adversarial": k % 4 == 3} for k in range(16)]
     # one parameterised generic met twice in one annotation (nested first / bare first)
